@@ -187,7 +187,7 @@ func InjectDefect(src *choice.Src, c *Cfg) (string, YMut) {
 		}
 		return cs[src.Draw("defect.svc", len(cs))]
 	}
-	switch k := src.Draw("defect.kind", 25); k {
+	switch k := src.Draw("defect.kind", 27); k {
 	case 0:
 		i := ensureSvc()
 		c.Services[i].Args = append(c.Services[i].Args, Arg{Kind: "svc", S: "ghost" + strconv.Itoa(src.Draw("ghost", 3))})
@@ -282,8 +282,37 @@ func InjectDefect(src *choice.Src, c *Cfg) (string, YMut) {
 		return cycleWeb(src, c), nil
 	case 24:
 		return paramCycleWeb(src, c), nil
+	case 25, 26:
+		return oddScalar(src, c, ensureSvc()), nil
 	}
 	return "", nil
+}
+
+// oddScalars are plain scalars that a YAML 1.1/1.2 decoder turns into something other than a string, an
+// int, a float or a bool (timestamps, binary, sets, merge keys ...) or into values at the edge of those.
+var oddScalars = []string{"2024-01-01", "2001-12-14t21:59:43.10-05:00", "2001-12-14 21:59:43.10 -5", "!!timestamp 2024-02-30", "!!timestamp \"2024-01-01\"",
+	"!!binary aGVsbG8=", "0o14", "0b1010_1010", "1_000_000", "0x_0A", "190:20:30", "yes", "Off", ".NaN", "-.inf", "!!float 1e400", "18446744073709551616",
+	"-9223372036854775809", "!!set {a, b}", "!!omap [a: 1]", "!!str", "!!null x", "? complex", "{<<: {a: 1}}", "[<<, 1]", "!!map []", "!!seq {}", "1e-400", "0.1e+3_0", "+12", "\"\\x00\"", "'@'", "'%'", "'!tagged'", "'!value'", "\"\\uD800\""}
+
+// oddScalar puts one of them where an argument, a field value, a call argument, a decorator argument, a
+// parameter or a tag priority is expected. Most are rejected, some are accepted: either way with a verdict.
+func oddScalar(src *choice.Src, c *Cfg, i int) string {
+	a := Arg{Kind: "yaml", S: choice.Pick(src, "odd.scalar", oddScalars)}
+	switch src.Draw("odd.where", 6) {
+	case 0:
+		c.Services[i].Args = append(c.Services[i].Args, a)
+	case 1:
+		c.Services[i].Fields = append(c.Services[i].Fields, Field{Name: "Odd", V: a})
+	case 2:
+		c.Services[i].Calls = append(c.Services[i].Calls, Call{Method: "Use", Args: []Arg{a}})
+	case 3:
+		c.Decorators = append(c.Decorators, Dec{Tag: "odd.tag", Fn: `"` + FxPath + `".Decorate`, Args: []Arg{a}})
+	case 4:
+		c.Params = append(c.Params, Param{Name: "odd.param", V: a})
+	case 5:
+		c.Services[i].Args = append(c.Services[i].Args, a, Arg{Kind: "yaml", S: choice.Pick(src, "odd.scalar2", oddScalars)})
+	}
+	return "odd-scalar"
 }
 
 // cycleWeb: several circular dependencies at once that meet in one service, which mentions its
